@@ -641,7 +641,15 @@ fn gen_scenario(rng: &mut Rng) -> Scenario {
                         let th = rng.below(nh as u64) as usize;
                         let ta = rng.below(plan[th].len() as u64) as usize;
                         let tport = if rng.chance(1, 12) { PortRef::Fixed(9009) } else { port_of(th, ta, &plan) };
-                        let to = if g.local {
+                        let to = if g.local && rng.chance(1, 6) {
+                            // a socket bound to the loopback address sends off the loopback address: refused or
+                            // lost (not judged) — but no other datagram may suffer from it
+                            match rng.below(4) {
+                                0 | 1 => Dst::Group { g: rng.below(ngroups as u64) as u8, port: tport },
+                                2 if !v6 => Dst::Broadcast { port: tport },
+                                _ => Dst::Ip { host: th as u8, port: tport },
+                            }
+                        } else if g.local {
                             Dst::Loopback { port: if rng.chance(3, 4) { port_of(h, rng.below(plan[h].len() as u64) as usize, &plan) } else { tport } }
                         } else {
                             let k = match theme {
@@ -870,7 +878,7 @@ impl Property for C09 {
     }
     fn assumptions() -> Vec<String> {
         vec![
-            "sockets bound to the loopback address only send to loopback destinations (the text is silent on their off-host traffic)".into(),
+            "what a socket bound to the loopback address sends to a group, to the broadcast address or to another address is owed to nobody and its result is not judged (the text is silent on it); such sends are generated all the same, because no other datagram may suffer from them".into(),
             "localhost-bound sockets and sockets with a non-matching connected peer are neither required nor forbidden to receive broadcast/multicast datagrams; multicast to a member on the sender's own host is owed only if both sockets have multicast_loop on and forbidden only if both have it off".into(),
             "destination sets may be evaluated at send time or at delivery time: a receive is accepted if the socket was a destination at some instant between send and receive; a datagram is owed only if the socket was a destination during the whole window".into(),
             "delivery deadline = ceil(max_latency/tick)+2 steps after the send (3 steps on the same host); judged at the socket's next observation of an empty queue".into(),
